@@ -253,7 +253,7 @@ theorem pump_good (fuel : Nat) (s : St) (f : Nat) (hb : Base s f) (hc : Cov s f)
                 simp only at *
                 omega
           · rw [if_neg hup]
-            by_cases hmr : s.maxRetries ≠ 0
+            by_cases hmr : givesUpOf s.maxRetries s.giveUpOnRejection s.failStatus = true
             · -- the finite retry limit is exhausted: dropped
               rw [if_pos hmr]
               have hH : ∀ it, (none : Option (Nat × Batch)) = some it →
